@@ -647,13 +647,43 @@ fn c05_cfgs() -> BoxedStrategy<Cfg> {
             if bytes {
                 cfg.type_mappings.insert("Vec<u8>".into(), "ByteBlob".into());
             }
+            // nested container instances are keys of their own (the outermost mapped instance wins)
+            if mapped.len() % 2 == 1 {
+                cfg.type_mappings.insert("Vec<Vec<u8>>".into(), "ChunkList".into());
+            }
+            if nps {
+                cfg.type_mappings.insert("HashMap<String,Vec<u8>>".into(), "BlobsByName".into());
+            }
             cfg.go_no_pointer_slice = nps;
             cfg
         })
         .boxed()
 }
+/// a quarter of the programs carry the nested container instances the configurations map
+fn c05_post(mut items: Vec<Item>) -> Vec<Item> {
+    if items.first().map(|i| i.layout % 4 == 0).unwrap_or(false) && !items.iter().any(|i| i.name == "NestedBytes") {
+        let bytes = || Ty::Vec(Box::new(Ty::Prim(Prim::U8)));
+        let chunks = || Ty::Vec(Box::new(bytes()));
+        let by_name = || Ty::Map(Box::new(Ty::Prim(Prim::String)), Box::new(bytes()));
+        items.push(Item::new(
+            "NestedBytes",
+            Kind::Struct {
+                shape: Shape::Named(vec![
+                    Field::new("chunks", chunks()),
+                    Field::new("by_name", by_name()),
+                    Field::new("maybe_chunks", Ty::Opt(Box::new(chunks()))),
+                    Field::new("listed", Ty::Vec(Box::new(by_name()))),
+                    Field::new("plain", bytes()),
+                ]),
+                rename_all: None,
+            },
+        ));
+        items.push(Item::new("ChunksAlias", Kind::Alias { ty: chunks() }));
+    }
+    items
+}
 pub fn c05() -> FactCheck {
-    FactCheck { name: "c05-types", gen: c05_gen, langs: &ALL_LANGS, oracle: c05_oracle, nontrivial: c05_nontrivial, labels: c05_labels, cfgs: c05_cfgs, exec_python: false, post: no_post }
+    FactCheck { name: "c05-types", gen: c05_gen, langs: &ALL_LANGS, oracle: c05_oracle, nontrivial: c05_nontrivial, labels: c05_labels, cfgs: c05_cfgs, exec_python: false, post: c05_post }
 }
 
 // =============================================================================================== C04
